@@ -156,6 +156,14 @@ pub fn c05(a: &Analysis) -> Vec<Violation> {
     // ones is only required to wait for the earliest PINGRESP it could own.
     let on_wire = a.pings_on_wire();
     let all_written = on_wire >= pings.len();
+    // an unsolicited PINGRESP (available before the PINGREQ it would answer was written) may be
+    // consumed while no ping is pending; completions are then not attributable
+    let pingreqs: Vec<&WirePkt> = a.wire.iter().filter(|w| matches!(w.pkt, Packet::Pingreq)).collect();
+    let solicited = pingresps.iter().enumerate().all(|(j, i)| match (i.avail_seq, pingreqs.get(j)) {
+        (Some(av), Some(rq)) => rq.seq_last < av,
+        (Some(_), None) => false,
+        (None, _) => true,
+    });
     let mut cancelled_before = 0usize;
     for (k, p) in pings.iter().enumerate() {
         let idx = if all_written { k } else { k - cancelled_before.min(k) };
@@ -176,9 +184,13 @@ pub fn c05(a: &Analysis) -> Vec<Violation> {
                 )),
                 _ => {}
             }
-        } else if quiet_end && p.cancelled.is_none() {
-            if let Some(av) = pingresps.get(k).and_then(|i| i.avail_seq) {
-                out.push(v("C05", "C05/lost-completion/ping", format!("ping op {} never completed although PINGRESP #{k} arrived at {av}", p.idx)));
+        } else if quiet_end && p.cancelled.is_none() && all_written && solicited {
+            // demanded only when the pairing is exact and the answer followed the request
+            let req_seq = a.wire.iter().filter(|w| matches!(w.pkt, Packet::Pingreq)).nth(k).map(|w| w.seq_last);
+            if let (Some(av), Some(rq)) = (pingresps.get(k).and_then(|i| i.avail_seq), req_seq) {
+                if av > rq {
+                    out.push(v("C05", "C05/lost-completion/ping", format!("ping op {} never completed although PINGRESP #{k} arrived at {av}", p.idx)));
+                }
             }
         }
     }
@@ -214,7 +226,21 @@ pub fn c05(a: &Analysis) -> Vec<Violation> {
                 out.push(v("C05", format!("C05/completed-without-ack/{kind}"), format!("op {} returned {:?} at {} but its completing acknowledgement was never sent", op.idx, got, rs)));
             }
             (None, Some(ack)) => {
-                if quiet_end && op.cancelled.is_none() && op.panicked.is_none() && ack.avail_seq.is_some() && a.request_of(op.idx).len() == 1 {
+                // a PUBCOMP completes a publish only at the end of a conformant exchange: the
+                // broker answered PUBREC first and the PUBREL was written before the PUBCOMP came
+                let chain_ok = match ack.p.ack_for {
+                    Some((_, AckKind::Pubcomp)) => {
+                        let rec = a.acks_for(op.idx).into_iter().find(|i| matches!(i.p.ack_for, Some((_, AckKind::Pubrec)))).and_then(|i| i.avail_seq);
+                        let req = a.request_of(op.idx);
+                        let rel = req.first().and_then(|wp| {
+                            let Packet::Publish(p) = &wp.pkt else { return None };
+                            a.wire.iter().find(|x| x.conn == wp.conn && x.off > wp.off && matches!(&x.pkt, Packet::Pubrel(r) if Some(r.pid) == p.pid)).map(|x| x.seq_last)
+                        });
+                        matches!((rec, rel, ack.avail_seq), (Some(rc), Some(rl), Some(av)) if rc < rl && rl < av)
+                    }
+                    _ => a.request_of(op.idx).first().map(|wp| Some(wp.seq_last) < ack.avail_seq).unwrap_or(false),
+                };
+                if quiet_end && chain_ok && op.cancelled.is_none() && op.panicked.is_none() && ack.avail_seq.is_some() && a.request_of(op.idx).len() == 1 {
                     out.push(v("C05", format!("C05/lost-completion/{kind}"), format!("op {} still pending although its acknowledgement arrived", op.idx)));
                 }
             }
